@@ -634,6 +634,10 @@ fn run_stored(rt: &tokio::runtime::Runtime, c: &[u64]) -> Vec<u64> {
         // end to end: two real nodes, real time
         return crate::c09_e2e::run(c);
     }
+    if c.first() == Some(&5) {
+        // several real services over shared real ProtocolSets
+        return crate::c08_multi::run_stored(rt, c);
+    }
     if c.first() == Some(&3) {
         // composed: real ProtocolSets -> real bounded channel -> real TransportService
         return match crate::c08_compose::parse(c) {
@@ -728,8 +732,22 @@ pub fn main(args: &Args, c09: bool) {
             out.emit(&c, &t);
         }
     }
-    // timed cases: real time, many threads (they mostly sleep)
-    let seeds: Vec<Rng> = (0..n_timed).map(|_| rng.fork()).collect();
+    // several services over shared ProtocolSets, logical time only (reference counting, queues, ids)
+    {
+        let mut rr = Rng::new(seed ^ 0x5a17);
+        for _ in 0..(if c09 { ncases / 2 } else { ncases / 4 }) {
+            let r = rr.fork();
+            let (c, t) = catch_unwind(AssertUnwindSafe(|| crate::c08_multi::gen_one(&rt, r, false, thorough)))
+                .unwrap_or((vec![0], vec![PANIC_MARK]));
+            out.emit(&c, &t);
+        }
+    }
+    // timed cases: real time, many threads (they mostly sleep); the second half of the C09 ones
+    // are multi-service cases (different timeouts on one connection)
+    let n_multi_timed = if c09 { ncases / 2 } else { ncases / 50 };
+    let mut seeds: Vec<(Rng, bool)> = (0..n_timed).map(|_| (rng.fork(), false)).collect();
+    let mut rng_m = Rng::new(seed ^ 0x5a19);
+    seeds.extend((0..n_multi_timed).map(|_| (rng_m.fork(), true)));
     let results: Arc<Mutex<Vec<Option<(Vec<u64>, Vec<u64>)>>>> = Arc::new(Mutex::new(vec![None; seeds.len()]));
     let next = Arc::new(std::sync::atomic::AtomicUsize::new(0));
     let seeds = Arc::new(seeds);
@@ -744,9 +762,15 @@ pub fn main(args: &Args, c09: bool) {
                 if i >= seeds.len() {
                     break;
                 }
-                let r = seeds[i].clone();
-                let res = catch_unwind(AssertUnwindSafe(|| gen_one(&rt, r, true, thorough)))
-                    .unwrap_or((vec![0], vec![PANIC_MARK]));
+                let (r, multi) = seeds[i].clone();
+                let res = catch_unwind(AssertUnwindSafe(|| {
+                    if multi {
+                        crate::c08_multi::gen_one(&rt, r, true, thorough)
+                    } else {
+                        gen_one(&rt, r, true, thorough)
+                    }
+                }))
+                .unwrap_or((vec![0], vec![PANIC_MARK]));
                 results.lock().unwrap()[i] = Some(res);
             }
         }));
